@@ -9,6 +9,7 @@ from fractions import Fraction
 from ..core import check
 
 ID = "C16"
+IMPORTS = ['rig.type_casts']
 LEVEL = "exploration"
 TECHNIQUE = ("runtime post-condition monitor against an exact rational "
              "reference; cross-implementation agreement (scalar / numpy / "
